@@ -248,9 +248,18 @@ def fwd_grad_concatenate_args(argnum, g, ans, axis_args, kwargs):
 defjvp_argnum(anp.concatenate_args, fwd_grad_concatenate_args)
 
 
+def permute_along_axis(g, perm, axis):
+    # g[perm] is only right for 1-D input; index every other axis with itself
+    if axis is None:
+        return anp.ravel(g)[perm]
+    idx = list(onp.indices(perm.shape, sparse=True))
+    idx[axis] = perm
+    return g[tuple(idx)]
+
+
 def fwd_grad_sort(g, ans, x, axis=-1, kind="quicksort", order=None):
     sort_perm = anp.argsort(x, axis, kind, order)
-    return g[sort_perm]
+    return permute_along_axis(g, sort_perm, axis)
 
 
 defjvp(anp.sort, fwd_grad_sort)
@@ -260,7 +269,7 @@ if onp.lib.NumpyVersion(onp.__version__) < "2.0.0":
 
 def fwd_grad_partition(g, ans, x, kth, axis=-1, kind="introselect", order=None):
     partition_perm = anp.argpartition(x, kth, axis, kind, order)
-    return g[partition_perm]
+    return permute_along_axis(g, partition_perm, axis)
 
 
 defjvp(anp.partition, fwd_grad_partition)
